@@ -325,6 +325,12 @@ NamedOrders == {
   <<SymCube2, <<1, 8, 2, 3, 5, 4, 6, 7>>>> }        \* the two "diagonal" entries, then by sub-element
 AllOrders2 == {<<SymTri2, p>> : p \in AllOrders(4)}    \* every way of writing a 2 x 2 dictionary
 OrdAB(m) == {<<L("identity", << >>), L("l2", << >>)>>, <<L("contravariant", <<m.t>>), L("covariant", <<m.t>>)>>}
+\* composite sub-elements of a symmetric element (its blocks are then themselves mixed / symmetric values)
+CompositeSubs(m) == {Mix(<<L("identity", << >>), L("contravariant", <<m.t>>)>>),
+                     Mix(<<L("l2", << >>), L("covariant", <<m.t>>)>>),
+                     Sym(Decl(SymVec3, <<3, 1, 2>>), <<L("identity", << >>), L("l2", << >>)>>),
+                     Sym(Decl(SymVec3, <<1, 2, 3>>), <<L("l2", << >>), L("l2", << >>)>>)}
+SymOfComposite(TOs, m) == SymOrdElems(TOs, Compat(CompositeSubs(m), m))
 
 NestQ(m) == {Mix(<<a, b>>) : a \in {L("identity", << >>), L("covariant", <<m.t>>)},
                              b \in {L("contravariant", <<m.t>>), L("l2", << >>)}}
@@ -342,6 +348,7 @@ Quick(m) ==
   \cup SymElems({SymTri2, SymVoigt2, SymTri3}, Medium(m) \cup {L("dcov", <<m.t, m.t>>)}, m)
   \cup SymOrdElems(AllOrders2, {<<L("identity", << >>), L("l2", << >>)>>})
   \cup SymOrdElems(NamedOrders, OrdAB(m))
+  \cup SymOfComposite({<<SymTri2, <<1, 2, 4, 3>>>>}, m)
   \cup {Mix(<<x, y>>) : x \in NestQ(m), y \in Small(m)}
   \cup {Mix(<<y, x>>) : x \in NestQ(m), y \in Small(m)}
   \cup {Mix(s) : s \in Pairs(NestQ(m))}
@@ -353,6 +360,8 @@ Thorough(m) ==
   \cup SymElems({SymTri2, SymVoigt2, SymTri3, SymVoigt3}, Core(m) \cup {L("l2", <<m.g>>), L("l2", <<2, 2>>)}, m)
   \cup SymOrdElems(AllOrders2, Compat(Small(m), m))
   \cup SymOrdElems(NamedOrders, Compat(Medium(m) \cup {L("dcov", <<m.t, m.t>>)}, m))
+  \cup SymOfComposite({<<SymTri2, <<1, 2, 3, 4>>>>, <<SymTri2, <<1, 2, 4, 3>>>>, <<SymVoigt2, <<1, 4, 2, 3>>>>,
+                        <<SymVec3, <<2, 3, 1>>>>}, m)
   \cup {Mix(<<x, y>>) : x \in NestT(m), y \in Medium(m)}
   \cup {Mix(<<y, x>>) : x \in NestT(m), y \in Medium(m)}
   \cup {Mix(<<y, x, z>>) : x \in NestT(m), y \in Small(m), z \in Small(m)}
@@ -415,8 +424,8 @@ Glob(O, pc) == O[pc[1]] + pc[2]                                  \* (piece, loca
 Loc(P, O, k) == LET p == CHOOSE q \in 1..Len(P) : O[q] < k /\ k <= O[q] + P[q].n
                 IN <<p, k - O[p]>>                               \* component -> (piece, local component)
 PieceBijection(e, m) ==
-  LET P == PieceSeq(e, m)
-      O == PieceOffs(P)
+  LET P == PieceSeq(e, m) \o << >>            \* (\o forces TLC's lazy function values into tuples)
+      O == PieceOffs(P) \o << >>
       N == PhysSize(e, m)
       PCs == UNION {{<<p, c>> : c \in 1..P[p].n} : p \in 1..Len(P)}
   IN /\ O[Len(P) + 1] = N                                      \* the sizes add up to the declared shape
